@@ -344,7 +344,5 @@ def run(oc, tier, seed):
 
 
 def replay(path):
-    payload = json.load(open(path))
-    payload.get("case", {}).pop("index", None)
-    print(json.dumps(payload, indent=1)[:3000])
-    return 1
+    import sys
+    return lib.replay_by_rerun(sys.modules[__name__], "C03", path)
